@@ -317,6 +317,19 @@ class Run:
             info["natives"]["ubsan-trap"] = [repr(o) for o in (outs or [])] if outs is not None else st
             return ("reproduced" if st == "died" else "not-reproduced"), info
         reproduced = False
+        if getattr(ob, "cross_config", False):
+            # translation-validation obligations: the property is that every build gives the same bits; the model's
+            # arguments are run on each native configuration and the results compared with each other
+            allouts = {}
+            for cfg in (ob.natives or DEFAULT_NATIVES):
+                key = " ".join(cfg[:2])
+                outs, st = run_calls(cfg)
+                if outs is None:
+                    return "mismatch", {"error": st}
+                allouts[key] = [repr(o) if isinstance(o, B.Died) else str(o) for o in outs]
+            info["natives"] = allouts
+            vals = {tuple(v) for v in allouts.values()}
+            return ("reproduced" if len(vals) > 1 else "not-reproduced"), info
         for cfg in (ob.natives or DEFAULT_NATIVES):
             key = " ".join(cfg[:2])
             outs, st = run_calls(cfg)
@@ -489,6 +502,22 @@ class Run:
         elif st == "unwinding":
             ob.verdict, ob.detail = "inconclusive", "unwinding bound too small for the model found"
         else:
+            # a model that the real code does not confirm is typical for obligations with contract stubs (the stub may
+            # take any value its contract allows).  Block that input point and ask again, a few times: a real
+            # counterexample, if there is one, is usually next.
+            tries = getattr(ob, "_retries", 0)
+            if tries < 4 and ob.query is not None and ob.inputs:
+                ob._retries = tries + 1
+                block = z3.Or([c != mk_val(c, out.model.get(c.decl().name(), 0)) for c in ob.inputs])
+                ob.extra_asserts.append(block)
+                try:
+                    q2 = self.build_query(ob, tag="#retry%d" % ob._retries)
+                    out2 = S.run_one(q2, os.path.join(B.BUILD, "%s_smt" % self.pid))
+                    self.solver_time += out2.t
+                    ob.outcome, ob.query = out2, q2
+                    return self.judge(ob, out2)
+                except (Unsupported, B.BuildError):
+                    pass
             ob.verdict, ob.detail = "inconclusive", "model did not reproduce on the real build (%s)" % st
 
     def judge_known(self, ob, k, out):
